@@ -7,7 +7,7 @@ logging.disable(logging.CRITICAL)
 from bitcoinlib.encoding import (change_base, base58encode, addr_base58_to_pubkeyhash, addr_bech32_to_pubkeyhash,
                                  addr_to_pubkeyhash, addr_bech32_checksum, pubkeyhash_to_addr_base58,
                                  pubkeyhash_to_addr_bech32, pubkeyhash_to_addr, convertbits, EncodingError)
-from bitcoinlib.keys import deserialize_address, Address, Key, HDKey, BKeyError
+from bitcoinlib.keys import deserialize_address, Address, Key, HDKey, BKeyError, bip38_decrypt
 
 
 def s_of(h):
@@ -98,6 +98,32 @@ def dispatch(t):
             return 'OK ' + hs(kk.wif(is_private=kk.is_private)) + ' ' + (kk.private_hex or kk.public_hex)
         if k == 'bip38':
             kk = Key(s_of(t[1]), password=s_of(t[2]))
+            return 'OK ' + kk.private_hex
+        if k == 'b32':            # b32 <string> <prefix|-> <include_witver> <as_hex>: every optional argument of the decoder
+            a = {}
+            if t[2] != '-':
+                a['prefix'] = s_of(t[2])
+            if t[3] != '-':
+                a['include_witver'] = t[3] == '1'
+            if t[4] != '-':
+                a['as_hex'] = t[4] == '1'
+            r = addr_bech32_to_pubkeyhash(s_of(t[1]), **a)
+            return 'OK %s %s' % ('str' if isinstance(r, str) else 'bytes', r if isinstance(r, str) else hx(r))
+        if k == 'a2px':           # a2px <string> <as_hex|-> <none|b58|bech32>
+            a = {}
+            if t[2] != '-':
+                a['as_hex'] = t[2] == '1'
+            if t[3] != 'none':
+                a['encoding'] = {'b58': 'base58', 'bech32': 'bech32'}[t[3]]
+            r = addr_to_pubkeyhash(s_of(t[1]), **a)
+            if r is None:
+                return 'ERR none'
+            return 'OK %s %s' % ('str' if isinstance(r, str) else 'bytes', r if isinstance(r, str) else hx(r))
+        if k == 'bip38fn':        # the decryption function itself (Key(...) only routes 58-character strings to it)
+            r = bip38_decrypt(s_of(t[1]), s_of(t[2]))
+            return 'OK ' + (r[0].hex() if isinstance(r[0], bytes) else str(r[0]))
+        if k == 'bip38hd':
+            kk = HDKey(s_of(t[1]), password=s_of(t[2]), witness_type='legacy')   # BIP38 address hashes are of legacy addresses
             return 'OK ' + kk.private_hex
         if k == 'floatguard':
             pf = math.log(256, 58)
